@@ -1,7 +1,7 @@
 #!/bin/bash
 # verifyseed.sh <seed-id>: confirms a seeded change in a scratch worktree of /repo (removed afterwards):
 #  (1) demo passes on /repo HEAD, (2) demo fails with the patch, (3) existing suite passes with the patch (no demo), (4) builds.
-id=$1; d=/verif/seeded/$id; wt=/tmp/vs-$id
+id=$1; d=/verif/seeded/$id; wt=/var/tmp/vs-$id
 export GOFLAGS=-mod=mod GOPROXY=off GOSUMDB=off GOTOOLCHAIN=local SHMIPC_LOG_LEVEL=5; unset GOWORK
 git -C /repo worktree add -q --detach $wt HEAD || exit 2
 trap "git -C /repo worktree remove --force $wt" EXIT
@@ -17,6 +17,6 @@ go test -vet=off -count=1 -run "^($run)\$" -timeout 300s . 2>&1 | grep -E "^(---
 rm -f $wt/$(basename $demo)
 echo "== (3) existing suite with patch"
 # the suite uses fixed ports and /dev/shm paths: run it in private network+mount namespaces so that concurrent suites cannot interfere
-unshare -n -m bash -c "ip link set lo up; mount -t tmpfs tmpfs /dev/shm; cd $wt && go test -vet=off -count=1 -timeout 25m . 2>&1 | tail -3; exit \${PIPESTATUS[0]}"; r3=$?
+unshare -n -m bash -c "ip link set lo up; mount -t tmpfs tmpfs /dev/shm; mount -t tmpfs tmpfs /tmp; cd $wt && go test -vet=off -count=1 -timeout 25m . 2>&1 | tail -3; exit \${PIPESTATUS[0]}"; r3=$?
 echo "RESULT $id demo_on_head=$r1 demo_with_patch=$r2 suite_with_patch=$r3 build=$r4"
 [ $r1 = 0 ] && [ $r2 != 0 ] && [ $r3 = 0 ] && [ $r4 = 0 ] && echo "CONFIRMED $id" || echo "NOT-CONFIRMED $id"
